@@ -151,20 +151,73 @@ def _wave_arg0(w, inverse):
     return (np.array(lo), np.array(hi), np.array(lo2), np.array(hi2))
 
 
+BASE_INIT = {
+    "DWT1DForward": ["J", "wave", "mode"], "DWT1DInverse": ["wave", "mode"],
+    "DWTForward": ["J", "wave", "mode"], "DWTInverse": ["wave", "mode"],
+    "SWTForward": ["J", "wave", "mode"],
+    "DTCWTForward": ["biort", "qshift", "J", "skip_hps", "include_scale", "o_dim", "ri_dim", "mode"],
+    "DTCWTInverse": ["biort", "qshift", "o_dim", "ri_dim", "mode"],
+    "ScatLayer": ["biort", "mode", "magbias", "combine_colour"],
+    "ScatLayerj2": ["biort", "qshift", "mode", "magbias", "combine_colour"],
+}
+
+
+def fuzz_kwargs(cls, fuzz):
+    """Keyword arguments for constructor parameters the pinned class does not
+    have (a change under test may add options): booleans flipped, None given a
+    plausible value, numbers nudged - chosen by the bits of `fuzz`. Part of the
+    recorded construction parameters, so simulation and reference agree."""
+    import inspect
+    if not fuzz:
+        return {}
+    try:
+        params = list(inspect.signature(cls.__init__).parameters.values())[1:]
+    except (TypeError, ValueError):
+        return {}
+    base = BASE_INIT.get(cls.__name__, [])
+    out = {}
+    bit = 0
+    for prm in params:
+        if prm.name in base or prm.kind not in (prm.POSITIONAL_OR_KEYWORD, prm.KEYWORD_ONLY):
+            continue
+        on = (fuzz >> (bit % 4)) & 1
+        bit += 1
+        if not on:
+            continue
+        if isinstance(prm.default, bool):
+            out[prm.name] = not prm.default
+        elif prm.default is None:
+            out[prm.name] = [True, 1, "float32"][fuzz % 3]
+        elif isinstance(prm.default, (int, float)):
+            out[prm.name] = prm.default + 1
+        elif isinstance(prm.default, str) and "dtype" in prm.name.lower():
+            out[prm.name] = "float32"
+    return out
+
+
 def build(family, p, given=None):
     """Run the library constructor for (family, params)."""
+    return _build(family, p, given)
+
+
+def _ctor(cls, p, **kw):
+    kw.update(fuzz_kwargs(cls, p.get("fuzz", 0)))
+    return cls(**kw)
+
+
+def _build(family, p, given=None):
     L = env.lib()
     pw = L.pw
     if family == "dwt1f":
-        return pw.DWT1DForward(J=p["J"], wave=_wave_arg(p["wave"], False, given), mode=p["mode"])
+        return _ctor(pw.DWT1DForward, p, J=p["J"], wave=_wave_arg(p["wave"], False, given), mode=p["mode"])
     if family == "dwt1i":
-        return pw.DWT1DInverse(wave=_wave_arg(p["wave"], True, given), mode=p["mode"])
+        return _ctor(pw.DWT1DInverse, p, wave=_wave_arg(p["wave"], True, given), mode=p["mode"])
     if family == "dwt2f":
-        return pw.DWTForward(J=p["J"], wave=_wave_arg(p["wave"], False, given), mode=p["mode"])
+        return _ctor(pw.DWTForward, p, J=p["J"], wave=_wave_arg(p["wave"], False, given), mode=p["mode"])
     if family == "dwt2i":
-        return pw.DWTInverse(wave=_wave_arg(p["wave"], True, given), mode=p["mode"])
+        return _ctor(pw.DWTInverse, p, wave=_wave_arg(p["wave"], True, given), mode=p["mode"])
     if family == "swt":
-        return L.dwt_t2.SWTForward(J=p["J"], wave=_wave_arg(p["wave"], False, given), mode=p["mode"])
+        return _ctor(L.dwt_t2.SWTForward, p, J=p["J"], wave=_wave_arg(p["wave"], False, given), mode=p["mode"])
     if family in ("dtf", "dti"):
         biort, qshift = p["biort"], p["qshift"]
         inv = family == "dti"
@@ -179,20 +232,20 @@ def build(family, p, given=None):
             if given is not None:
                 given.extend((a, a.tobytes()) for a in qshift)
         if inv:
-            return pw.DTCWTInverse(biort=biort, qshift=qshift, o_dim=p["o_dim"],
-                                   ri_dim=p["ri_dim"], mode=p["mode"])
+            return _ctor(pw.DTCWTInverse, p, biort=biort, qshift=qshift, o_dim=p["o_dim"],
+                         ri_dim=p["ri_dim"], mode=p["mode"])
         sk = p["skip_hps"]
         inc = p["include_scale"]
-        return pw.DTCWTForward(biort=biort, qshift=qshift, J=p["J"],
-                               skip_hps=list(sk) if isinstance(sk, list) else sk,
-                               include_scale=list(inc) if isinstance(inc, list) else inc,
-                               o_dim=p["o_dim"], ri_dim=p["ri_dim"], mode=p["mode"])
+        return _ctor(pw.DTCWTForward, p, biort=biort, qshift=qshift, J=p["J"],
+                     skip_hps=list(sk) if isinstance(sk, list) else sk,
+                     include_scale=list(inc) if isinstance(inc, list) else inc,
+                     o_dim=p["o_dim"], ri_dim=p["ri_dim"], mode=p["mode"])
     if family == "scat":
-        return pw.ScatLayer(biort=p["biort"], mode=p["mode"], magbias=p["magbias"],
-                            combine_colour=p["combine_colour"])
+        return _ctor(pw.ScatLayer, p, biort=p["biort"], mode=p["mode"], magbias=p["magbias"],
+                     combine_colour=p["combine_colour"])
     if family == "scat2":
-        return pw.ScatLayerj2(biort=p["biort"], qshift=p["qshift"], mode=p["mode"],
-                              magbias=p["magbias"], combine_colour=p["combine_colour"])
+        return _ctor(pw.ScatLayerj2, p, biort=p["biort"], qshift=p["qshift"], mode=p["mode"],
+                     magbias=p["magbias"], combine_colour=p["combine_colour"])
     raise ValueError(family)
 
 
